@@ -155,6 +155,20 @@ func (commitmentProof *CommitmentProof) Verify(dataRoot, commitment []byte) erro
 			return fmt.Errorf("len(commitmentProof.SubtreeRoots)=%d < subtreeRootsCursor+len(ranges)=%d",
 				len(commitmentProof.SubtreeRoots), subtreeRootsCursor+len(ranges))
 		}
+		// the NMT verifier does not bind the proven range to the size of the row tree: with fewer
+		// proof nodes a coarser inner node passes as the subtree root of a smaller range. The size of
+		// the row tree follows from the row proof, so require the shape a range proof has in it.
+		rowTreeSize := int(commitmentProof.RowProof.Proofs[i].Total / 2)
+		if subtreeRootProof.Start() < 0 || subtreeRootProof.Start() >= subtreeRootProof.End() ||
+			subtreeRootProof.End() > rowTreeSize {
+			return fmt.Errorf("subtree root proof range [%d, %d) is outside of the row of size %d",
+				subtreeRootProof.Start(), subtreeRootProof.End(), rowTreeSize)
+		}
+		expectedNodes := rangeProofNodes(subtreeRootProof.Start(), subtreeRootProof.End(), 0, rowTreeSize)
+		if len(subtreeRootProof.Nodes()) != expectedNodes {
+			return fmt.Errorf("subtree root proof for range [%d, %d) has %d nodes, expected %d",
+				subtreeRootProof.Start(), subtreeRootProof.End(), len(subtreeRootProof.Nodes()), expectedNodes)
+		}
 		valid, err := subtreeRootProof.VerifySubtreeRootInclusion(
 			nmtHasher,
 			commitmentProof.SubtreeRoots[subtreeRootsCursor:subtreeRootsCursor+len(ranges)],
@@ -204,4 +218,21 @@ func (commitmentProof *CommitmentProof) UnmarshalJSON(data []byte) error {
 	// because tmjson.Unmarshal invokes custom json Unmarshaling
 	type Alias CommitmentProof
 	return tmjson.Unmarshal(data, (*Alias)(commitmentProof))
+}
+
+// rangeProofNodes returns the number of nodes an NMT range proof for the leaves [start, end) carries
+// in the (sub)tree over the leaves [lo, hi): one node for every maximal subtree outside of the range.
+func rangeProofNodes(start, end, lo, hi int) int {
+	if end <= lo || hi <= start {
+		return 1
+	}
+	if (start <= lo && hi <= end) || hi-lo <= 1 {
+		return 0
+	}
+	// the left subtree spans the largest power of two smaller than the number of leaves
+	split := 1
+	for split*2 < hi-lo {
+		split *= 2
+	}
+	return rangeProofNodes(start, end, lo, lo+split) + rangeProofNodes(start, end, lo+split, hi)
 }
